@@ -29,9 +29,14 @@ def exec_mc(name, scripts, maxc, mins, tolc, tolp, invs, props=(), spec="Spec", 
     wd = work_dir(name)
     mod = f"MC_{name}"
     with open(os.path.join(wd, mod + ".tla"), "w") as f:
-        f.write(f"---- MODULE {mod} ----\nEXTENDS Executor\nScriptDef == {tla_seq(scripts)}\n====\n")
-    cfg = [f"SPECIFICATION {spec}", "CONSTANTS", f"  N = {len(scripts)}", f"  MaxConc = {maxc}", f"  MinSucc = {mins}",
-           f"  TolCount = {tolc}", f"  TolPct = {tolp}", "  Script <- ScriptDef",
+        f.write(f"---- MODULE {mod} ----\nEXTENDS Executor\n"
+                f"CfDef == [script |-> {tla_seq(scripts)}, maxc |-> {maxc}, mins |-> {mins}, tolc |-> {tolc}, tolp |-> {tolp}]\n"
+                f"MCInit == cf = CfDef /\\ Init\n"
+                f"MCSpec == MCInit /\\ [][NextC]_<<vars, cf>>\n"
+                f"MCFairSpec == MCSpec /\\ WF_vars(MainStep)"
+                + "".join(f" /\\ WF_vars(WorkerStep({k})) /\\ WF_vars(TimerStep({k}))" for k in range(1, len(scripts) + 1)) + "\n"
+                f"====\n")
+    cfg = [f"SPECIFICATION MC{spec}", "CONSTANTS",
            f"  FixOrphanParent = {'TRUE' if fixes[0] else 'FALSE'}", f"  FixBteBranch = {'TRUE' if fixes[1] else 'FALSE'}",
            f"  FixEmpty = {'TRUE' if fixes[2] else 'FALSE'}"]
     cfg += [f"INVARIANT {i}" for i in invs] + [f"PROPERTY {p}" for p in props] + ["CHECK_DEADLOCK FALSE"]
